@@ -277,6 +277,7 @@ func TestC07(t *testing.T) {
 	}
 	// window bookkeeping: all 256 ACK/NACK values against every window state
 	queueDiff(r, 2, pick(8, 16), allSeqs(), "queue-exh")
+	queueLarge(r, "queue-large")
 	queueMisc(r)
 	// all 256 values of the SYN window field on a real server handshake
 	for n := 0; n < 256; n++ {
